@@ -74,6 +74,11 @@ template<> struct ScalarIO<S> {
 #endif
 
 static bool dispatch(const Case& c, Out<S>& o){
+#if VQ_GROUPSET >= 100
+#define X(name, type) if(c.group==name && c.op=="P11") return PredB<type>::run(c,o);
+  VQ_GROUPS
+#undef X
+#endif
 #define X(name, type) if(c.group==name) return (c.op.size()>1 && (c.op[0]=='P' || c.op[0]=='J' || c.op[0]=='W') && isdigit(c.op[1])) ? Pred<type>::run(c,o) : (GroupRunner<type>::run(c,o) || GroupRunner2<type>::run(c,o));
   VQ_GROUPS
 #undef X
